@@ -77,6 +77,7 @@ type Exec struct {
 	beforeSeen    map[string]bool
 	siteOrd       map[string][]token.Pos
 	nonNilPending []nonNilWrite
+	ownWrites     []nonNilWrite // stores made by the function's own statements (checked against the declared frame under assumed_frame)
 	overflow      bool      // contract option: machine-integer overflow of + - * is an obligation
 	curPos        token.Pos // position of the instruction being executed (for safety obligations)
 	acqSnap       map[string]*State
@@ -792,6 +793,7 @@ func (ex *Exec) run() {
 	ex.beforeSeen = map[string]bool{}
 	ex.siteOrd = nil
 	ex.nonNilPending = nil
+	ex.ownWrites = nil
 	ex.wholeWrites = map[string]bool{}
 	ex.globalWrites = map[string]bool{}
 	ex.nsafe = map[string]int{}
@@ -1023,6 +1025,7 @@ func (ex *Exec) finish() {
 	// frame: every heap written must be unchanged on pre-existing cells, except where `modifies` allows it
 	if ex.con.AssumedFrame {
 		ex.vc.assumed["frame of "+ex.con.Name+" trusted as declared (option assumed_frame): its callees are outside the contracts"] = true
+		ex.ownWriteObligations()
 	} else if !ex.con.NoFrame {
 		ex.frameObligations()
 	}
@@ -1247,4 +1250,57 @@ func (ex *Exec) inlineCall(st *State, f *ssa.Function, args []T) []T {
 		out = append(out, ex.mergeVals("inl", vals, gs))
 	}
 	return out
+}
+
+// ownWriteObligations: under `option assumed_frame` the callees' effects are trusted to stay inside the declared frame, but
+// the stores the function makes itself are still checked against it: each goes to a cell allocated by this call or to a
+// location the `modifies` clause lists.
+func (ex *Exec) ownWriteObligations() {
+	if ex.con.modifiesAll() {
+		return
+	}
+	vc := ex.vc
+	allMaps := false
+	for _, m := range ex.con.Modifies {
+		if m.allMaps {
+			allMaps = true
+		}
+	}
+	a0 := ex.ghostGet(ex.entry, "alloc")
+	for i, w := range ex.ownWrites {
+		h := w.heap
+		if strings.HasPrefix(h, "G_ghost.") || strings.HasPrefix(h, "D_") {
+			continue
+		}
+		if allMaps && (strings.HasPrefix(h, "MapDom_") || strings.HasPrefix(h, "MapVal_")) {
+			continue
+		}
+		whole := false
+		var ats []ast.Expr
+		for _, m := range ex.con.Modifies {
+			if m.pkgHeaps != "" && strings.HasPrefix(h, "H_"+m.pkgHeaps+".") {
+				whole = true
+			}
+			for _, mh := range m.heaps {
+				if mh == h {
+					if m.at == nil {
+						whole = true
+					} else {
+						ats = append(ats, m.at)
+					}
+				}
+			}
+		}
+		if whole {
+			continue
+		}
+		ok := Gt(w.ref, a0)
+		env := ex.specEnv(ex.entry, ex.entry, true)
+		for _, e := range ats {
+			if tv, err := env.eval(e); err == nil {
+				ok = Or(ok, Eq(w.ref, tv.t))
+			}
+		}
+		vc.oblige("frame", fmt.Sprintf("frame-own:%s:%s:%d", ex.con.Name, h, i+1), w.guard, ok, ex.pos(ex.fn.Pos())).SetNote("a store made by the function itself goes to a cell allocated by this call or listed in `modifies` (callees are trusted under assumed_frame, own stores are not)")
+	}
 }
